@@ -472,7 +472,8 @@ func (x *Exec) unop(fr *Frame, in *ssa.UnOp, st *State) Value {
 		a := x.toAddr(v, in.X.Type())
 		x.nilCheckAddr(st, in, a, in.X)
 		r := x.load(st, a)
-		x.assumeIn(st, x.w.validFacts(r, in.Type(), st.alloc, 0))
+		// memory-model axiom: every cell holds a valid value of its type
+		x.assume(x.w.validFacts(r, in.Type(), st.alloc, 0))
 		return r
 	case token.NOT:
 		return ts.Not(x.term(fr, in.X))
@@ -671,7 +672,7 @@ func (x *Exec) lookup(fr *Frame, in *ssa.Lookup, st *State) Value {
 		notNil := ts.Not(ts.Eq(m, ts.IntLit(0)))
 		ok := ts.And(notNil, ts.Select(d, k))
 		val := ts.Ite(ok, ts.Select(vv, k), x.w.zeroOf(xt.Elem()))
-		x.assumeIn(st, x.w.validFacts(val, xt.Elem(), st.alloc, 0))
+		x.assume(x.w.validFacts(val, xt.Elem(), st.alloc, 0))
 		if in.CommaOk {
 			return Tuple{val, ok}
 		}
